@@ -1,10 +1,10 @@
 SPECIFICATION Spec
 CONSTANTS NMax = 3
-          VMax = 3
-          XMax = 3
-          LVMax = 2
+          VMax = 4
+          XMax = 4
+          LVMax = 3
           BMax = 3
-          FMax = 2
+          FMax = 3
 INVARIANT PairLaws
 INVARIANT LineLaws
 INVARIANT FitLaws
